@@ -73,7 +73,7 @@ fn module_text(i: usize, deps: &[usize], file_backed: &[bool], dir: &str) -> Str
         }
     }
     s.push_str(&format!(
-        "(provide m{i}-f m{i}-v m{i}-w {tag} (contract/out m{i}-c (->/c int? int?)) (contract/out m{i}-d (->/c {doms} int?)))\n(instantiated! \"m{i}\")\n(define secret {sec})\n(define (helper x) (+ x secret))\n(define m{i}-v {v})\n(define {tag} {t})\n(define (m{i}-d {dparams}) (+ secret {dar}))\n",
+        "(provide m{i}-f m{i}-v m{i}-w {tag} (contract/out m{i}-c (->/c int? int?)) (contract/out m{i}-d (->/c {doms} int?)) (for-syntax m{i}-mac))\n(instantiated! \"m{i}\")\n(define secret {sec})\n(define (helper x) (+ x secret))\n(define (inner-only x) (helper x))\n(define-syntax m{i}-mac (syntax-rules () [(_ x) (helper x)]))\n(define m{i}-v {v})\n(define {tag} {t})\n(define (m{i}-d {dparams}) (+ secret {dar}))\n",
         i = i,
         doms = (0..d_arity(i)).map(|p| d_contract(i, p).0).collect::<Vec<_>>().join(" "),
         dparams = (0..d_arity(i)).map(|p| format!("d{}", p)).collect::<Vec<_>>().join(" "),
@@ -292,14 +292,18 @@ impl Scenario for C14 {
                         checks.push((format!("(m{}-c 1)", m), (base + 2).to_string()));
                         checks.push((format!("(m{}-d {})", m, d_args(m, None)), (base + 1 + d_arity(m) as i64).to_string()));
                         checks.push((format!("(m{}-w)", m), w_value(m, &deps).to_string()));
+                        // a macro the module provides: its expansion calls the module's
+                        // private helper, whatever the requirer calls helper itself
+                        checks.push((format!("(m{}-mac 5)", m), (base + 1 + 5).to_string()));
                     }
                 }
             }
             let own_secret = st["own_secret"].as_bool().unwrap_or(false);
             if own_secret {
                 // the requiring program's own private with the same name
-                src.push_str(&format!("(define secret {})\n", 9000 + si));
+                src.push_str(&format!("(define secret {})\n(define (helper x) (- secret x))\n", 9000 + si));
                 checks.push(("secret".to_string(), (9000 + si).to_string()));
+                checks.push(("(helper 3)".to_string(), (9000 + si as i64 - 3).to_string()));
             }
             let exprs: Vec<String> = checks.iter().map(|c| c.0.clone()).collect();
             let expect = format!("({})", checks.iter().map(|c| c.1.clone()).collect::<Vec<_>>().join(" "));
@@ -311,7 +315,7 @@ impl Scenario for C14 {
                     if own_secret {
                         src.push_str(&format!("(list {})\n", exprs.join(" ")));
                     } else {
-                        src.push_str("(list (helper 1))\n");
+                        src.push_str("(list (inner-only 1))\n");
                     }
                 }
                 "contract-probe" => {
